@@ -214,6 +214,17 @@ func c28WorkerProg(base string, n int, timeout time.Duration, f []string) (res c
 	return res
 }
 
+type c28VarsEnv map[string]expand.Variable
+
+func (e c28VarsEnv) Get(name string) expand.Variable { return e[name] }
+func (e c28VarsEnv) Each(f func(string, expand.Variable) bool) {
+	for n, v := range e {
+		if !f(n, v) {
+			return
+		}
+	}
+}
+
 // c28ProbeVars checks, on the variables Run leaves in r.Vars, the representation invariant that
 // every keyed array access relies on (Variable.indexedVal / indexedKeys index List by positions found
 // in Indexes): Indexes is nil, or has one strictly increasing non-negative entry per List element.
@@ -227,6 +238,13 @@ func c28ProbeVars(r *interp.Runner) string {
 	sort.Strings(names)
 	for _, n := range names {
 		v := r.Vars[n]
+		if v.Kind == expand.NameRef {
+			// Resolve never returns a variable that is still a nameref (cycles, self references and
+			// over-long chains resolve to the zero Variable): the Kind switches after a Resolve rely on it
+			if _, res := v.Resolve(c28VarsEnv(r.Vars)); res.Kind == expand.NameRef {
+				return fmt.Sprintf("nameref %s (-> %s): Variable.Resolve returned a variable whose Kind is still NameRef (-> %s)", n, v.Str, res.Str)
+			}
+		}
 		if v.Kind != expand.Indexed || v.Indexes == nil {
 			continue
 		}
